@@ -47,6 +47,28 @@ def scoping():
                                {"build.ninja": top, "sub.ninja": sub})
 
 
+
+def scoping2():
+    """One parent that uses both subninja and include, in both orders, each file binding the variable
+    and declaring a rule; uses after each."""
+    n = 0
+    vals = ["", "v = P\n"]
+    for order in (("subninja", "include"), ("include", "subninja"), ("subninja", "subninja"), ("include", "include")):
+        for pv, av, bv in itertools.product(vals, ["", "v = A\n"], ["", "v = B\n"]):
+            for arule, brule in itertools.product((False, True), repeat=2):
+                top = pv + "rule r\n  command = r $v $in $out\n"
+                top += "%s a.ninja\nbuild after_a_$v: r in\n" % order[0]
+                if arule:
+                    top += "build qa: qa in\n"
+                top += "%s b.ninja\nbuild after_b_$v: r in\n" % order[1]
+                if brule:
+                    top += "build qb: qb in\n"
+                a = av + ("rule qa\n  command = qa $v\n" if arule else "") + "build a_$v: r in\n"
+                b = bv + ("rule qb\n  command = qb $v\n" if brule else "") + "build b_$v: r in\n"
+                n += 1
+                yield ("scope2#%d %s-%s" % (n, order[0], order[1]), {"build.ninja": top, "a.ninja": a, "b.ninja": b})
+
+
 def forms():
     n = 0
     rule = "rule r\n  command = c $in $out\npool p\n  depth = 2\n"
